@@ -170,3 +170,30 @@ func H_C19_big() {
 	r.Close()
 	vReach("c19-big-done")
 }
+
+// H_C19_kvbig: key lengths around 2^8 (where the second length byte becomes non-zero) with concrete filler and a
+// symbolic first byte; round trip and comparison against bytes.Compare on the keys.
+func H_C19_kvbig() {
+	lens := [4]int{1, 255, 256, 257}
+	mk := func(tag string) ([]byte, []byte) {
+		kl := lens[vChoice(tag+"klen", 0, 4)]
+		k := make([]byte, kl)
+		for i := range k {
+			k[i] = byte(i)
+		}
+		k[0] = vByte(tag+"k", 0)
+		k[kl-1] = vByte(tag+"k", 1)
+		v := []byte{vByte(tag+"v", 0)}
+		return k, v
+	}
+	k1, v1 := mk("a")
+	k2, v2 := mk("b")
+	e1, e2 := KVToBytes(k1, v1), KVToBytes(k2, v2)
+	dk, dv := KVFromBytes(e1)
+	vAssert(len(dk) == len(k1) && len(dv) == 1, "KV lengths round-trip for long keys")
+	vAssert(dk[0] == k1[0] && dk[len(dk)-1] == k1[len(k1)-1] && dv[0] == v1[0], "first/last key byte and value round-trip")
+	c := CompareKV(e1, e2)
+	ref := bytes.Compare(k1, k2)
+	vAssert((c < 0) == (ref < 0) && (c > 0) == (ref > 0), "CompareKV orders long keys as bytes.Compare")
+	vReach("c19-kvbig-done")
+}
